@@ -206,7 +206,18 @@ func (c *HTTPHealthChecker) checkEndpoint(ctx context.Context, endpoint *domain.
 	now := time.Now()
 	result, err := c.healthClient.Check(ctx, endpoint)
 
+	// the endpoint handed in is the snapshot taken when the pass started; while the probe was
+	// in flight the proxy may have marked the endpoint failed. Recovery is judged against the
+	// status the repository holds now, or such a recovery would go without its re-discovery.
 	oldStatus := endpoint.Status
+	if current, getErr := c.repository.GetAll(ctx); getErr == nil {
+		for _, ep := range current {
+			if ep.URLString == endpoint.URLString {
+				oldStatus = ep.Status
+				break
+			}
+		}
+	}
 	newStatus := result.Status
 	statusChanged := oldStatus != newStatus
 
